@@ -34,7 +34,7 @@ GAP = {
 @st.composite
 def reference_map(draw, rid, sizes=("tiny", "small", "medium", "medium", "large", "large"), spacing=None):
     size = draw(st.sampled_from(sizes))
-    if size == "large" and draw(st.integers(0, 5)) == 0:
+    if size == "large" and draw(st.integers(0, 8)) == 0:
         size = "huge"
     n = draw({"one": st.just(1), "tiny": st.integers(1, 6), "small": st.integers(8, 30), "medium": st.integers(25, 70),
               "large": st.integers(50, 120), "huge": st.integers(260, 700)}[size])
